@@ -116,6 +116,16 @@ impl fmt::Display for ParseError
     }
 }
 
+/*  A path can be written flat (dir/file) and as part of a bundle (dir, then an
+    indented file) in the same section.  Both spellings mean the same path, so the
+    list is put in plain string order and repeated paths are merged. */
+fn sort_and_merge(mut paths : Vec<String>) -> Vec<String>
+{
+    paths.sort();
+    paths.dedup();
+    paths
+}
+
 /*  Takes a vector of string-pairs representing (filename, content).  Parses
     each file's contents as rules and returns one big vector full of Rule objects.
 
@@ -213,8 +223,8 @@ pub fn parse(filename : String, content : String)
                         };
 
                         let rule = Rule::new(
-                            target_bundle.get_path_strings('/'),
-                            source_bundle.get_path_strings('/'),
+                            sort_and_merge(target_bundle.get_path_strings('/')),
+                            sort_and_merge(source_bundle.get_path_strings('/')),
                             command);
 
                         rules.push(rule);
